@@ -85,7 +85,7 @@ func newVerSys(prop string, keys, bodies []string, maxEnt int) (*verSys, error) 
 
 func (s *verSys) Close() { s.w.Close() }
 func (s *verSys) Key() string {
-	return drv.KeyOf(s.w.Snapshot(drv.SnapOpts{Versions: true}))
+	return drv.KeyOf(s.w.Snapshot(drv.SnapOpts{Versions: true}) + "MODEL " + s.renderModel())
 }
 
 func (s *verSys) Ops() []engine.Op {
@@ -122,6 +122,10 @@ func (s *verSys) Ops() []engine.Op {
 		k0, k1 := s.keys[0], s.keys[1]
 		if es := s.m.Keys[k1]; len(es) > 0 && es[0].ID != "" {
 			ops = append(ops, verOp{kind: "multi", objs: []verObj{{k0, -1}, {k1, 0}}})
+			ops = append(ops, verOp{kind: "multi", objs: []verObj{{k1, 0}, {k0, -1}}})
+		}
+		if es := s.m.Keys[k0]; len(es) > 1 && es[len(es)-2].ID != "" {
+			ops = append(ops, verOp{kind: "multi", objs: []verObj{{k0, len(es) - 2}, {k1, -1}}})
 		}
 	}
 	return ops
